@@ -16,6 +16,7 @@ func init() {
 		ruleM2(c, "C19.M2")
 		ruleM3(c, "C19.M3")
 		ruleA1(c, "C19.M4")
+		ruleW2(c, "C19.M5")
 	}
 }
 
